@@ -42,10 +42,18 @@ MECH_ORDER = [int(x) for x in os.environ.get("C10_MECHS", "0,1,2,3,4,5,6").split
 CRED_FIXED = os.environ.get("C10_CRED")
 SHAPE = os.environ.get("C10_SHAPE", "connect*,deletescript").split(",")
 FREEZE = tuple(x for x in os.environ.get("C10_FREEZE", "").split(",") if x)
+X0LO = int(os.environ.get("C10_X0LO", "-1000000"))
+X0HI = int(os.environ.get("C10_X0HI", "1000000"))
+X1LO = int(os.environ.get("C10_X1LO", "-1000000"))
+X1HI = int(os.environ.get("C10_X1HI", "1000000"))
 
 
 def reconfigure():
-    global C0LO, C0HI, NSASL, NMECH, NCALL, SASL_ORDER, MECH_ORDER, CRED_FIXED, SHAPE, FREEZE
+    global C0LO, C0HI, NSASL, NMECH, NCALL, SASL_ORDER, MECH_ORDER, CRED_FIXED, SHAPE, FREEZE, X0LO, X0HI, X1LO, X1HI
+    X0LO = int(os.environ.get("C10_X0LO", "-1000000"))
+    X0HI = int(os.environ.get("C10_X0HI", "1000000"))
+    X1LO = int(os.environ.get("C10_X1LO", "-1000000"))
+    X1HI = int(os.environ.get("C10_X1HI", "1000000"))
     SHAPE = os.environ.get("C10_SHAPE", "connect*,deletescript").split(",")
     FREEZE = tuple(x for x in os.environ.get("C10_FREEZE", "").split(",") if x)
     NMECH = int(os.environ.get("C10_NMECH", "7"))
@@ -489,6 +497,7 @@ def hist(cred: int, x0: int, x1: int, x2: int, x3: int, x4: int, x5: int, x6: in
          x11: int, x12: int, x13: int, x14: int, x15: int) -> bool:
     """
     pre: 0 <= cred < NCREDS
+    pre: X0LO <= x0 < X0HI and X1LO <= x1 < X1HI
     post: _
     """
     return run("hist", _body, dict(cred=cred, choices=[x0, x1, x2, x3, x4, x5, x6, x7, x8, x9, x10, x11, x12, x13, x14, x15]))
